@@ -57,6 +57,10 @@ Definition pyval_str (v : pyval) : pstr :=
   | PComplex r _ => r
   | PStr s => s
   | PBytes b => bytes_repr b
+  | PList [] => s2p "[]"
+  | PTuple [] => s2p "()"
+  | PSet [] => s2p "set()"
+  | PDict [] => s2p "{}"
   | PList _ | PTuple _ | PSet _ | PDict _ => unrendered_marker
   end.
 
@@ -156,27 +160,33 @@ Definition hardcoded_password_string (_ : jv) (c : ctx) : res (option rissue) :=
       else if is_cls "Compare" parent then pw_compare_branch parent
       else Ok None.
 
-(* B106 hardcoded_password_funcarg: the loop over context.node.keywords *)
-Fixpoint funcarg_scan (kws : list node) : res (option rissue) :=
+(* B106 hardcoded_password_funcarg: the loop over context.node.keywords
+     if isinstance(kw.value, ast.Str) and kw.arg is not None and RE_CANDIDATES.search(kw.arg):
+         return _report(kw.value.s)
+   kw.arg is the engine's [kw_arg] (an identifier, or None for "**mapping") *)
+Definition kw_hit (kw : node) : option pstr :=
+  match str_of (field "value" kw) with
+  | Some s =>
+      match kw_arg kw with
+      | Some a => if is_candidate a then Some s else None
+      | None => None
+      end
+  | None => None
+  end.
+
+Fixpoint funcarg_scan (kws : list node) : option rissue :=
   match kws with
-  | [] => Ok None
+  | [] => None
   | kw :: t =>
-      match str_of (field "value" kw) with
-      | Some s =>
-          (* RE_CANDIDATES.search(kw.arg): kw.arg is None for **mapping *)
-          match field "arg" kw with
-          | NId a => if is_candidate a then Ok (Some (pw_report s)) else funcarg_scan t
-          | _ => Raise TypeError
-          end
+      match kw_hit kw with
+      | Some s => Some (pw_report s)
       | None => funcarg_scan t
       end
   end.
 
+(* context.node.keywords: present on every Call node (the only class the check is registered for) *)
 Definition hardcoded_password_funcarg (_ : jv) (c : ctx) : res (option rissue) :=
-  match field_opt "keywords" (c_node c) with
-  | Some kws => funcarg_scan (items kws)
-  | None => Raise AttributeError
-  end.
+  Ok (funcarg_scan (field_list "keywords" (c_node c))).
 
 (* B107: params = args.posonlyargs + args.args;
          defs = [None] * (len(params) - len(defaults)); defs.extend(defaults)
